@@ -1570,6 +1570,13 @@ impl KotoVm {
             Map(map) if map.contains_meta_key(&index_op) => {
                 let op = map.get_meta_value(&index_op).unwrap();
                 let lhs = lhs.clone();
+                // Negative indices count from the end, which is defined by @size
+                let index = if index < 0 {
+                    let size = self.get_value_size(value)?;
+                    signed_index_to_unsigned(index, size) as i64
+                } else {
+                    index as i64
+                };
                 return self.call_overridden_op_2(Some(result), lhs, index.into(), op);
             }
             Map(map) => {
